@@ -311,6 +311,56 @@ def verify(qual, repo=None, ctx=None, bound=None, second_solver=False, fast=Fals
     return merged
 
 
+_DECLS_CACHE = {}
+
+
+def _decl_names(t):
+    """names of the uninterpreted constants / functions occurring in a term (cached by AST id)"""
+    k = t.get_id()
+    if k in _DECLS_CACHE:
+        return _DECLS_CACHE[k]
+    out, stack, seen = set(), [t], set()
+    while stack:
+        x = stack.pop()
+        if x.get_id() in seen:
+            continue
+        seen.add(x.get_id())
+        if z3.is_quantifier(x):
+            stack.append(x.body())
+            continue
+        if z3.is_app(x):
+            if x.decl().kind() == z3.Z3_OP_UNINTERPRETED:
+                out.add(x.decl().name())
+            stack.extend(x.children())
+    _DECLS_CACHE[k] = out
+    return out
+
+
+def _prune_typing(obls):
+    """relevance filter (sound: it only DROPS assumptions): a heap-typing axiom (bound variable o!ht) is kept for an obligation only if
+    every FIELD array it mentions also occurs in the goal or in some assumption that is not a typing axiom"""
+    for ob in obls:
+        typing, rest = [], []
+        for a in ob.assumptions:
+            if z3.is_quantifier(a) and a.num_vars() >= 1 and a.var_name(0) == "o!ht":
+                typing.append(a)
+            else:
+                rest.append(a)
+        if not typing:
+            continue
+        used = set(_decl_names(ob.goal))
+        for a in rest:
+            used |= _decl_names(a)
+        keep = []
+        for a in typing:
+            names = _decl_names(a)
+            fields = {n for n in names if not n.startswith(("H_len", "Hlen", "H_el", "Hel", "H_alloc", "Halloc"))}
+            # the FIELD arrays of the axiom must be relevant; the list / allocation arrays it mentions need not occur elsewhere
+            if (fields and fields <= used) or (not fields and names & used):
+                keep.append(a)
+        ob.assumptions = rest + keep
+
+
 def _verify(qual, repo, ctx, bound, second_solver, fast, case):
     """returns dict(qual, status, obligations=[...], ...).  status: ok | refuted | undecided | error"""
     t_start = time.time()
@@ -469,6 +519,8 @@ def _verify(qual, repo, ctx, bound, second_solver, fast, case):
         n_ext = 0
         _retry_budget[0] = 6
         from .engine import _mentions
+        if os.environ.get("PYVC_PRUNE_TYPING"):      # experimental relevance filter (off: it made some obligations undecidable)
+            _prune_typing(X.obls)
         for ob in X.obls:
             if _mentions(ob.goal, "tdiv") or any(_mentions(a_, "tdiv") for a_ in ob.assumptions):
                 ob.assumptions = list(ob.assumptions) + tdiv_ax
